@@ -475,6 +475,8 @@ func (k *keeper) accountWithdraw(ctx sdk.Context, obj *types.Account) error {
 	}
 
 	if obj.Balance.IsZero() {
+		// nothing to send, but a state change made by the caller must still be persisted
+		k.saveAccount(ctx, obj)
 		return nil
 	}
 
@@ -496,6 +498,8 @@ func (k *keeper) paymentWithdraw(ctx sdk.Context, obj *types.Payment) error {
 	}
 
 	if obj.Balance.IsZero() {
+		// nothing to send, but a state change made by the caller must still be persisted
+		k.savePayment(ctx, obj)
 		return nil
 	}
 
